@@ -39,7 +39,7 @@ PATTERNS = [
     (r"\bstd::time\b|\bInstant\b|\bSystemTime\b", "clock"),
     (r"\bstd::env\b|\benv::var\b", "environment"),
     (r"\{:p\}", "pointer formatting"),
-    (r"\bptr::eq\b|as\s+\*const\b|as\s+\*mut\b|\.as_ptr\(\)|\baddr\(\)", "pointer value"),
+    (r"\bptr::eq\b|\*const\b|\*mut\b|\.as_ptr\(\)|\.as_mut_ptr\(\)|\baddr\(\)|\bNonNull\b", "pointer value"),
     (r"\brand::|\bthread_rng\b", "random source"),
     (r"\*const\s+[A-Za-z_(\[]|\*mut\s+[A-Za-z_(\[]|\bNonNull\b", "raw pointer type"),
 ]
